@@ -34,6 +34,82 @@ theorem sumN_delta (k i : Nat) (g : Nat → α) :
       · have h2 : ¬ i < k + 1 := by omega
         simp [h1, h3, h2]
 
+mutual
+  theorem shape_transpose (a : Op α) :
+      (transposeOp a).rows = a.cols ∧ (transposeOp a).cols = a.rows := by
+    cases a with
+    | tri up t => simpa [transposeOp, rows, cols] using shape_transpose t
+    | kron a b =>
+      have ha := shape_transpose a; have hb := shape_transpose b
+      simp [transposeOp, rows, cols, ha, hb]
+    | kronTri a b =>
+      have ha := shape_transpose a; have hb := shape_transpose b
+      simp [transposeOp, rows, cols, ha, hb]
+    | addedDiag a d => simpa [transposeOp, rows, cols] using shape_transpose a
+    | kronAddedDiag a d => simpa [transposeOp, rows, cols] using shape_transpose a
+    | lrrAddedDiag a d => simpa [transposeOp, rows, cols] using shape_transpose a
+    | sum l => simpa [transposeOp, rows, cols] using shapeL_transpose l
+    | psdSum l => simpa [transposeOp, rows, cols] using shapeL_transpose l
+    | sumKron a b => simpa [transposeOp, rows, cols] using shape_transpose a
+    | matmul a b =>
+      have ha := shape_transpose a; have hb := shape_transpose b
+      simp [transposeOp, rows, cols, ha, hb]
+    | mul a b =>
+      have ha := shape_transpose a; have hb := shape_transpose b
+      simp [transposeOp, rows, cols, ha, hb]
+    | constMul a c => simpa [transposeOp, rows, cols] using shape_transpose a
+    | _ => simp [transposeOp, rows, cols]
+  theorem shapeL_transpose (l : List (Op α)) :
+      rowsL (transposeL l) = colsL l ∧ colsL (transposeL l) = rowsL l := by
+    cases l with
+    | nil => simp [transposeL, rowsL, colsL]
+    | cons a l => simpa [transposeL, rowsL, colsL] using shape_transpose a
+end
+
+theorem toep_sym (i j : Nat) : (if j ≤ i then i - j else j - i) = (if i ≤ j then j - i else i - j) := by
+  split_ifs <;> omega
+
+mutual
+  theorem transpose_refines (a : Op α) (i j : Nat) : (transposeOp a).denote i j = a.denote j i := by
+    cases a with
+    | dense n m t => simp [transposeOp, denote]
+    | opq c n m t => simp [transposeOp, denote]
+    | zero n m => simp [transposeOp, denote]
+    | diag n d => by_cases h : i = j <;> simp [transposeOp, denote, h, eq_comm]
+    | constDiag n c => by_cases h : i = j <;> simp [transposeOp, denote, h, eq_comm]
+    | identity n => by_cases h : i = j <;> simp [transposeOp, denote, h, eq_comm]
+    | kronDiag x y => by_cases h : i = j <;> simp [transposeOp, denote, h, eq_comm]
+    | toep n col => simp only [transposeOp, denote]; rw [toep_sym]
+    | tri up t => simpa [transposeOp, denote] using transpose_refines t i j
+    | root r => simp only [transposeOp, denote]; exact sumN_congr _ _ _ (fun l _ => mul_comm _ _)
+    | lowRankRoot r => simp only [transposeOp, denote]; exact sumN_congr _ _ _ (fun l _ => mul_comm _ _)
+    | chol r => simp only [transposeOp, denote]; exact sumN_congr _ _ _ (fun l _ => mul_comm _ _)
+    | cholU r => simp only [transposeOp, denote]; exact sumN_congr _ _ _ (fun l _ => mul_comm _ _)
+    | kron a b =>
+      have hb := shape_transpose b
+      simp only [transposeOp, denote, hb.1, hb.2, transpose_refines a, transpose_refines b]
+    | kronTri a b =>
+      have hb := shape_transpose b
+      simp only [transposeOp, denote, hb.1, hb.2, transpose_refines a, transpose_refines b]
+    | addedDiag a d => simp only [transposeOp, denote, transpose_refines a, transpose_refines d]
+    | kronAddedDiag a d => simp only [transposeOp, denote, transpose_refines a, transpose_refines d]
+    | lrrAddedDiag a d => simp only [transposeOp, denote, transpose_refines a, transpose_refines d]
+    | sumKron a b => simp only [transposeOp, denote, transpose_refines a, transpose_refines b]
+    | sum l => simpa [transposeOp, denote] using transposeL_refines l i j
+    | psdSum l => simpa [transposeOp, denote] using transposeL_refines l i j
+    | matmul a b =>
+      have ha := shape_transpose a; have hb := shape_transpose b
+      simp only [transposeOp, denote, ha.1, hb.2, Nat.min_comm b.rows a.cols]
+      exact sumN_congr _ _ _ (fun l _ => by rw [transpose_refines b, transpose_refines a, mul_comm])
+    | mul a b => simp only [transposeOp, denote, transpose_refines a, transpose_refines b]
+    | constMul a c => simp only [transposeOp, denote, transpose_refines a]
+  theorem transposeL_refines (l : List (Op α)) (i j : Nat) : denoteL (transposeL l) i j = denoteL l j i := by
+    cases l with
+    | nil => simp [transposeL, denoteL]
+    | cons a l => simp only [transposeL, denoteL, transpose_refines a, transposeL_refines l]
+end
+
+
 theorem denote_of_isDiag (a : Op α) (h : a.isDiag = true) (i j : Nat) :
     a.denote i j = if i = j then a.diagOf i else 0 := by
   cases a <;> simp [isDiag] at h <;> simp [denote, diagOf]
@@ -76,17 +152,11 @@ theorem diagAdd_refines (a b r : Op α) (h : diagAdd a b = .ok r) (i j : Nat) :
     by_cases hij : i = j <;> simp [denote, hij]
   · rw [mkAddedDiag_refines _ _ _ _ h, add_comm]
 
-theorem rootT_refines (r : Op α) (i j : Nat) : (rootT r).denote i j = r.denote j i := by
-  unfold rootT
-  split <;> simp [denote]
+theorem rootT_refines (r : Op α) (i j : Nat) : (rootT r).denote i j = r.denote j i := transpose_refines r i j
 
-theorem rootT_rows (r : Op α) : (rootT r).rows = r.cols := by
-  unfold rootT
-  split <;> simp [rows, cols]
+theorem rootT_rows (r : Op α) : (rootT r).rows = r.cols := (shape_transpose r).1
 
-theorem rootT_cols (r : Op α) : (rootT r).cols = r.rows := by
-  unfold rootT
-  split <;> simp [rows, cols]
+theorem rootT_cols (r : Op α) : (rootT r).cols = r.rows := (shape_transpose r).2
 
 theorem lowRankTerm_refines (b : Op α) (hb : b.isRoot = true) (i j : Nat) :
     (lowRankTerm b).denote i j = b.denote i j := by
